@@ -36,7 +36,7 @@ Final == <<SPrint(Nn), SPrint(Xs), SPrint(EProp(Ob, KA)), SPrint(EProp(Ob, KB)),
 Payloads == {"declare", "assign", "opassign", "listdestruct", "objdestruct", "idxassign", "propassign",
              "rangeassign", "print", "interp", "spreadcall", "closure", "method", "typefn", "concat",
              "compare", "rangeidx", "newkey", "strops", "break", "continue", "return", "error",
-             "nestinterp", "rebind"}
+             "nestinterp", "rebind", "loopmutate", "sloterror", "slotcallerror"}
 Payload(p) ==
     CASE p = "declare"  -> <<SDecl(Tmp(1), EBin("+", Nn, I(10))), SPrint(Tmp(1))>>
       [] p = "assign"   -> <<SAssign(Nn, EBin("*", Nn, I(2))), SPrint(Nn)>>
@@ -76,6 +76,16 @@ Payload(p) ==
                                               SlotP(0, EIStr(<<Lit(<<91>>), SlotP(0, EStr(KA)), Lit(<<93>>)>>)), Lit(<<>>)>>)),
                                 SPrint(EIStr(<<Lit(<<>>), SlotP(0, EStr(KB)), Lit(<<33>>)>>)),
                                 SPrint(EIStr(<<Lit(<<>>), SlotP(0, Sv), Lit(<<33>>)>>))>>
+      \* the loop walks the items it found at entry, whatever the body writes into the list meanwhile
+      [] p = "loopmutate"  -> <<SFor(EPat(<<Tmp(1), Tmp(2)>>), Xs,
+                                     <<SIf(EBin("==", Tmp(1), I(0)), <<SAssign(EIndex(Xs, I(2)), I(99)),
+                                                                       SAssign(ERIndex(Xs, I(1), I(2)), EList(<<I(98)>>))>>),
+                                       SPrint(Tmp(2))>>),
+                                SPrint(Xs)>>
+      \* a failure inside an interpolation slot / inside a call made from a slot is reported in the enclosing function
+      [] p = "sloterror"   -> <<SPrint(I(77)), SPrint(EIStr(<<Lit(<<60>>), SlotP(0, EBin("+", Nn, Sv)), Lit(<<62>>)>>))>>
+      [] p = "slotcallerror" -> <<SFn(<<115, 99>>, <<>>, FALSE, <<SReturn(EBin("+", Sv, Nn))>>),
+                                  SPrint(EIStr(<<Lit(<<195, 169, 10>>), SlotP(0, ECall(Nm(<<115, 99>>), <<>>)), Lit(<<62>>)>>))>>
       \* a variable that held a method read from one object is assigned the method read from another
       [] p = "rebind"      -> <<SDecl(Tmp(1), EProp(Ob, <<103, 101, 116>>)),
                                 SDecl(Tmp(2), EObj(<<Pair(EStr(KA), I(77)), Pair(EStr(<<103, 101, 116>>), EProp(Ob, <<103, 101, 116>>))>>)),
